@@ -460,7 +460,7 @@ func (c *Client) opendir(ctx context.Context, path string) (string, error) {
 		}
 		return handle, nil
 	case sshFxpStatus:
-		return "", normaliseError(unmarshalStatus(id, data))
+		return "", errFromFailureStatus(id, data)
 	default:
 		return "", unimplementedPacketErr(typ)
 	}
@@ -500,7 +500,7 @@ func (c *Client) Lstat(p string) (os.FileInfo, error) {
 		}
 		return fileInfoFromStat(attr, path.Base(p)), nil
 	case sshFxpStatus:
-		return nil, normaliseError(unmarshalStatus(id, data))
+		return nil, errFromFailureStatus(id, data)
 	default:
 		return nil, unimplementedPacketErr(typ)
 	}
@@ -535,7 +535,7 @@ func (c *Client) ReadLink(p string) (string, error) {
 		}
 		return filename, nil
 	case sshFxpStatus:
-		return "", normaliseError(unmarshalStatus(id, data))
+		return "", errFromFailureStatus(id, data)
 	default:
 		return "", unimplementedPacketErr(typ)
 	}
@@ -705,7 +705,7 @@ func (c *Client) open(path string, pflags uint32) (*File, error) {
 		}
 		return &File{c: c, path: path, handle: handle}, nil
 	case sshFxpStatus:
-		return nil, normaliseError(unmarshalStatus(id, data))
+		return nil, errFromFailureStatus(id, data)
 	default:
 		return nil, unimplementedPacketErr(typ)
 	}
@@ -749,7 +749,7 @@ func (c *Client) stat(path string) (*FileStat, error) {
 		attr, _, err := unmarshalAttrs(data)
 		return attr, err
 	case sshFxpStatus:
-		return nil, normaliseError(unmarshalStatus(id, data))
+		return nil, errFromFailureStatus(id, data)
 	default:
 		return nil, unimplementedPacketErr(typ)
 	}
@@ -773,7 +773,7 @@ func (c *Client) fstat(handle string) (*FileStat, error) {
 		attr, _, err := unmarshalAttrs(data)
 		return attr, err
 	case sshFxpStatus:
-		return nil, normaliseError(unmarshalStatus(id, data))
+		return nil, errFromFailureStatus(id, data)
 	default:
 		return nil, unimplementedPacketErr(typ)
 	}
@@ -807,7 +807,7 @@ func (c *Client) StatVFS(path string) (*StatVFS, error) {
 
 	// the resquest failed
 	case sshFxpStatus:
-		return nil, normaliseError(unmarshalStatus(id, data))
+		return nil, errFromFailureStatus(id, data)
 
 	default:
 		return nil, unimplementedPacketErr(typ)
@@ -980,7 +980,7 @@ func (c *Client) RealPath(path string) (string, error) {
 		}
 		return filename, nil
 	case sshFxpStatus:
-		return "", normaliseError(unmarshalStatus(id, data))
+		return "", errFromFailureStatus(id, data)
 	default:
 		return "", unimplementedPacketErr(typ)
 	}
@@ -1171,7 +1171,7 @@ func (f *File) readChunkAt(ch chan result, b []byte, off int64) (n int, err erro
 
 		switch typ {
 		case sshFxpStatus:
-			return n, normaliseError(unmarshalStatus(id, data))
+			return n, errFromFailureStatus(id, data)
 
 		case sshFxpData:
 			sid, data := unmarshalUint32(data)
@@ -1323,7 +1323,7 @@ func (f *File) readAt(b []byte, off int64) (int, error) {
 				if err == nil {
 					switch s.typ {
 					case sshFxpStatus:
-						err = normaliseError(unmarshalStatus(packet.id, s.data))
+						err = errFromFailureStatus(packet.id, s.data)
 
 					case sshFxpData:
 						sid, data := unmarshalUint32(s.data)
@@ -1559,7 +1559,7 @@ func (f *File) WriteTo(w io.Writer) (written int64, err error) {
 				if err == nil {
 					switch s.typ {
 					case sshFxpStatus:
-						err = normaliseError(unmarshalStatus(readWork.id, s.data))
+						err = errFromFailureStatus(readWork.id, s.data)
 
 					case sshFxpData:
 						sid, data := unmarshalUint32(s.data)
@@ -2275,6 +2275,22 @@ func (f *File) Sync() error {
 	default:
 		return &unexpectedPacketErr{want: sshFxpStatus, got: typ}
 	}
+}
+
+// errUnexpectedOKStatus reports an SSH_FX_OK status in reply to a request
+// that is answered with another packet type on success.
+var errUnexpectedOKStatus = errors.New("sftp: unexpected SSH_FX_OK status in reply")
+
+// errFromFailureStatus decodes the SSH_FXP_STATUS reply to a request that is
+// answered with HANDLE, DATA, NAME, ATTRS or EXTENDED_REPLY on success.
+// Such a status always reports a failure: an SSH_FX_OK code is a protocol
+// violation, and must not be mistaken for a successful (but empty) result.
+func errFromFailureStatus(id uint32, data []byte) error {
+	err := normaliseError(unmarshalStatus(id, data))
+	if err == nil {
+		return errUnexpectedOKStatus
+	}
+	return err
 }
 
 // normaliseError normalises an error into a more standard form that can be
